@@ -206,7 +206,7 @@ def relevant_combo(traits, combo):
 
 
 # ---- items ---------------------------------------------------------------------------------
-def make_item(name, variants, is_enum, traits, mode, extra_derives=()):
+def make_item(name, variants, is_enum, traits, mode, extra_derives=(), discrs=None, item_attrs=()):
     """variants: list of (named: bool, [(ftype, combo)]) ; returns request S-expression"""
     def fields_s(named, fl):
         fs = [sx.field(sx.tid('u8' if ft == 'u8' else 'P'), name=('f%d' % i) if named else None,
@@ -215,7 +215,8 @@ def make_item(name, variants, is_enum, traits, mode, extra_derives=()):
             return sx.named(fs)
         return sx.unnamed(fs) if fs else sx.UNIT
     if is_enum:
-        it = sx.enum(name, [sx.variant('V%d' % i, fields_s(nm, fl)) for i, (nm, fl) in enumerate(variants)])
+        it = sx.enum(name, [sx.variant('V%d' % i, fields_s(nm, fl), discr=(discrs[i] if discrs else None))
+                            for i, (nm, fl) in enumerate(variants)], attrs=list(item_attrs))
     else:
         it = sx.struct(name, fields_s(*variants[0]))
     tl = [(t, None) for t in traits]
